@@ -407,6 +407,23 @@ impl WalWriter {
         Ok(())
     }
 
+    /// One more than the largest suffix of the rotated logs present
+    fn next_rotation_sequence(&self) -> Result<u64> {
+        let dir = self.path.parent().unwrap_or_else(|| Path::new("."));
+        let entries = std::fs::read_dir(dir).map_err(|e| {
+            P2PError::Storage(StorageError::Database(
+                format!("Failed to read state directory: {e}").into(),
+            ))
+        })?;
+        let mut max_sequence = 0u64;
+        for entry in entries.flatten() {
+            if let Some(n) = rotated_wal_number(&entry.path()) {
+                max_sequence = max_sequence.max(n);
+            }
+        }
+        Ok(max_sequence.saturating_add(1))
+    }
+
     /// Check if rotation needed
     fn needs_rotation(&self) -> bool {
         self.current_size >= MAX_WAL_SIZE || self.entry_count >= MAX_WAL_ENTRIES
@@ -423,11 +440,13 @@ impl WalWriter {
 
         #[cfg(feature = "verif-hooks")]
         crate::verif_hooks::crash_point("wal.rotate.after_sync");
-        // Rename to timestamped file
-        let timestamp = current_timestamp();
+        // Rename to the next free sequence number.  (A timestamp in seconds is
+        // not unique: two rotations within one second renamed onto the same
+        // file and the older log was lost.)
+        let sequence = self.next_rotation_sequence()?;
         let rotated_path = self
             .path
-            .with_file_name(format!("wal.{timestamp}.{WAL_EXTENSION}"));
+            .with_file_name(format!("wal.{sequence:020}.{WAL_EXTENSION}"));
         std::fs::rename(&self.path, &rotated_path).map_err(|e| {
             P2PError::Storage(StorageError::Database(
                 format!("Failed to rotate WAL: {e}").into(),
